@@ -259,7 +259,89 @@ def kindMapOf : Sexp → Option KindMap
       | _ => none)
   | _ => none
 
+/-! a reader for the JSON text of a jsonb parameter (`pgtype.JSONB`): objects, arrays, strings with the common escapes, integers and
+decimals, true / false / null — anything else makes the parameter unreadable (`none`), and the case is not evaluated -/
+namespace JsonText
+def isWs (c : Char) : Bool := c == ' ' || c == '\n' || c == '\t' || c == '\r'
+def skipWs : List Char → List Char
+  | c :: cs => if isWs c then skipWs cs else c :: cs
+  | [] => []
+partial def str (acc : List Char) : List Char → Option (String × List Char)
+  | '"' :: rest => some (String.ofList acc.reverse, rest)
+  | '\\' :: c :: rest =>
+    match c with
+    | 'n' => str ('\n' :: acc) rest
+    | 't' => str ('\t' :: acc) rest
+    | 'r' => str ('\r' :: acc) rest
+    | '"' => str ('"' :: acc) rest
+    | '\\' => str ('\\' :: acc) rest
+    | '/' => str ('/' :: acc) rest
+    | _ => none
+  | c :: rest => str (c :: acc) rest
+  | [] => none
+def number (cs : List Char) : Option (Json × List Char) :=
+  let (neg, cs) := match cs with | '-' :: r => (true, r) | _ => (false, cs)
+  let ip := cs.takeWhile Char.isDigit
+  let rest := cs.dropWhile Char.isDigit
+  if ip.isEmpty then none else
+  let (fp, rest) := match rest with
+    | '.' :: r => (r.takeWhile Char.isDigit, r.dropWhile Char.isDigit)
+    | _ => ([], rest)
+  match rest with
+  | 'e' :: _ => none
+  | 'E' :: _ => none
+  | _ =>
+    match (String.ofList (ip ++ fp)).toNat? with
+    | some n => some (.num ⟨if neg then -(n : Int) else (n : Int), fp.length⟩, rest)
+    | none => none
+mutual
+partial def value (cs : List Char) : Option (Json × List Char) :=
+  match skipWs cs with
+  | '{' :: rest => members [] (skipWs rest)
+  | '[' :: rest => elems [] (skipWs rest)
+  | '"' :: rest => (str [] rest).map (fun p => (.str p.1, p.2))
+  | 't' :: 'r' :: 'u' :: 'e' :: rest => some (.bool true, rest)
+  | 'f' :: 'a' :: 'l' :: 's' :: 'e' :: rest => some (.bool false, rest)
+  | 'n' :: 'u' :: 'l' :: 'l' :: rest => some (.null, rest)
+  | cs' => number cs'
+partial def members (acc : List (String × Json)) (cs : List Char) : Option (Json × List Char) :=
+  match cs with
+  | '}' :: rest => some (.obj acc.reverse, rest)
+  | '"' :: rest =>
+    match str [] rest with
+    | some (k, rest) =>
+      match skipWs rest with
+      | ':' :: rest =>
+        match value rest with
+        | some (v, rest) =>
+          match skipWs rest with
+          | ',' :: rest => members ((k, v) :: acc) (skipWs rest)
+          | '}' :: rest => some (.obj ((k, v) :: acc).reverse, rest)
+          | _ => none
+        | none => none
+      | _ => none
+    | none => none
+  | _ => none
+partial def elems (acc : List Json) (cs : List Char) : Option (Json × List Char) :=
+  match cs with
+  | ']' :: rest => some (.arr acc.reverse, rest)
+  | _ =>
+    match value cs with
+    | some (v, rest) =>
+      match skipWs rest with
+      | ',' :: rest => elems (v :: acc) (skipWs rest)
+      | ']' :: rest => some (.arr (v :: acc).reverse, rest)
+      | _ => none
+    | none => none
+end
+def parse (s : String) : Option Json :=
+  match value s.toList with
+  | some (j, rest) => if (skipWs rest).isEmpty then some j else none
+  | none => none
+end JsonText
+
 partial def paramVal : Sexp → Option Val
+  | .list [.atom "pgtype.JSONB", .list [.atom "Bytes", .list [.atom "bytes", .str js]], _] => (JsonText.parse js).map Val.jsonb
   | .atom "nil" => some .null
   | .atom "true" => some (.bool true)
   | .atom "false" => some (.bool false)
